@@ -5,6 +5,8 @@ use crate::exec::{Exec, Stats, Violation};
 use crate::gen::Tier;
 use std::path::PathBuf;
 
+pub mod crashprops;
+pub mod ioprops;
 pub mod seqprops;
 
 pub struct Outcome {
@@ -48,7 +50,17 @@ pub const ALL_PROPS: &[&str] = &[
 /// Number of cases per tier
 pub fn budget(prop: &str, tier: Tier) -> u64 {
     let q = match prop {
-        "C01" => 6000,
+        "C01" => 40000,
+        "C04" | "C11" | "C12" | "C16" => 30000,
+        "C05" | "C07" | "C08" => 60000,
+        "C18" => 20000,
+        "C02" => 700,
+        "C09" => 1600,
+        "C10" => 3000,
+        "C13" => 1600,
+        "C03" => 120,
+        "C15" => 100,
+        "C17" => 3000,
         _ => 1000,
     };
     match tier {
@@ -68,6 +80,13 @@ pub fn gen_case(prop: &str, tier: Tier, seed: u64) -> Case {
         "C12" => seqprops::gen_c12(tier, seed),
         "C16" => seqprops::gen_c16(tier, seed),
         "C18" => seqprops::gen_c18(tier, seed),
+        "C02" => crashprops::gen_c02(tier, seed),
+        "C09" => crashprops::gen_c09(tier, seed),
+        "C10" => crashprops::gen_c10(tier, seed),
+        "C13" => crashprops::gen_c13(tier, seed),
+        "C03" => ioprops::gen_c03(tier, seed),
+        "C15" => ioprops::gen_c15(tier, seed),
+        "C17" => ioprops::gen_c17(tier, seed),
         _ => panic!("unknown property {prop}"),
     }
 }
@@ -75,7 +94,12 @@ pub fn gen_case(prop: &str, tier: Tier, seed: u64) -> Case {
 pub fn run_case(case: &Case, dir: PathBuf) -> Outcome {
     match case.prop.as_str() {
         "C01" | "C04" | "C05" | "C07" | "C08" | "C11" | "C12" | "C16" | "C18" => seqprops::run_seq(case, dir),
-        p => panic!("unknown property {p}"),
+        "C02" | "C09" | "C10" => crashprops::run_faulty(case, dir),
+        "C13" => ioprops::run_io(case, dir),
+        "C03" => ioprops::run_cuts(case, dir),
+        "C15" => ioprops::run_damage(case, dir),
+        "C17" => ioprops::run_c17(case, dir),
+        p => panic!("fjsim: unknown property {p}"),
     }
 }
 
